@@ -132,6 +132,13 @@ class C16(Prop):
         return " S0" in out
 
     def oracle(self, line, impl_out=None):
+        L.ORACLE_MODE[0] = True
+        try:
+            return self._oracle(line)
+        finally:
+            L.ORACLE_MODE[0] = False
+
+    def _oracle(self, line):
         defs, ops = L.parse_line(line)
         try:
             out, info = L.run_history(defs, ops)
